@@ -354,6 +354,11 @@ def run_shard(shard):
             for ch, x in explore_nd(p, inputs, runner, horizon=meta["horizon"], acc=acc, case_key=name, judge=_judge(p, inputs), monitor_extra=monitor_view(p), bound=1 if tier == "quick" else 2, max_execs=8000 if tier == "quick" else 80000, **cfg):
                 acc.outcomes[(name, runner, x.status)] += 1
             acc.key((name, runner, cfg["suspend"]))
+        if tier == "thorough":
+            un = 0
+            for ch, x in explore_nd(p, inputs, runner, horizon=min(5, meta["horizon"]), acc=acc, case_key=name + "/unpruned", judge=_judge(p, inputs), bound=0, max_execs=30000, prune=False, suspend=False):
+                un += 1
+            acc.counters["unpruned_executions"] += un
     if i == 0:
         for runner in ("sync", "async"):
             for N in range(0, 6 if tier == "quick" else 12):
